@@ -260,7 +260,14 @@ def build_rows(c, desc):
             raise RuntimeError("could not write distinct peptide strings")
         seen.add(s)
         rows.append({"pid": k + 1, "tgt": tgt, "rank": int(c["rank"][i]), "s4": int(c["rank"][i]) - 8,
-                     "str": s, "seq": seq, "nota": nota})
+                     "str": s, "seq": seq, "nota": nota, "label": tgt})
+    # "tgt" is the SIDE of the pair whose sequence the row carries; "label" is the target/decoy label the table gives the row.  In every
+    # fourth directly driven case over a target/decoy database every third row is labelled against its side (a decoy-labelled PSM whose
+    # sequence is a unique peptide of a target protein, and vice versa): ownership is by sequence, the pair still gets one entry
+    if c["mode"] == "direct" and c["idx"] % 4 == 2 and desc["fasta_decoys"]:
+        for j, r in enumerate(rows):
+            if j % 3 == 1:
+                r["label"] = not r["tgt"]
     return rows
 
 
@@ -280,7 +287,7 @@ def run_direct(c, prot, rows):
     from mokapot.picked_protein import picked_protein
     n = len(rows)
     tcol, pcol, scol = [("Label", "peptide", "score"), ("is_target", "Peptide", "mokapot score")][c["idx"] % 2]
-    df = pd.DataFrame({"PSMId": ["r%d" % i for i in range(n)], tcol: [r["tgt"] for r in rows],
+    df = pd.DataFrame({"PSMId": ["r%d" % i for i in range(n)], tcol: [r.get("label", r["tgt"]) for r in rows],
                        pcol: [r["str"] for r in rows], "proteinIds": ["x"] * n,
                        scol: [r["s4"] / 4.0 for r in rows]})
     if c["index_style"] == "offset":
